@@ -358,6 +358,39 @@ pub fn family(kind: &str, n: usize) -> Option<Vec<u8>> {
                 tok(&mut b, 0x37, b"", b"");
             }
         }
+        // nested collections whose member on every level has two values (the child collection and an integer)
+        "deepsets" => {
+            tok(&mut b, 0x34, b"c", b"");
+            for _ in 1..n {
+                tok(&mut b, 0x4a, b"", b"m");
+                tok(&mut b, 0x34, b"", b"");
+            }
+            tok(&mut b, 0x4a, b"", b"m");
+            tok(&mut b, 0x21, b"", &[0, 0, 0, 1]);
+            tok(&mut b, 0x21, b"", &[0, 0, 0, 2]);
+            for i in 0..n {
+                tok(&mut b, 0x37, b"", b"");
+                if i + 1 < n {
+                    tok(&mut b, 0x21, b"", &[0, 0, 0, 3]);
+                }
+            }
+        }
+        // attributes whose names are long runs of bytes that are not UTF-8 (n = total bytes of such names)
+        "badnames" => {
+            let l = 16000usize.min(n.max(1));
+            let name = vec![0xffu8; l];
+            for _ in 0..(n / l).max(1) {
+                tok(&mut b, 0x21, &name, &[0, 0, 0, 1]);
+            }
+        }
+        // one long non-UTF-8 text value per attribute
+        "badtext" => {
+            let l = 60000usize.min(n.max(1));
+            let body = vec![0xc3u8; l];
+            for i in 0..(n / l).max(1) {
+                tok(&mut b, 0x41, format!("t{}", i).as_bytes(), &body);
+            }
+        }
         _ => return None,
     }
     b.push(3);
@@ -366,5 +399,5 @@ pub fn family(kind: &str, n: usize) -> Option<Vec<u8>> {
 
 pub const FAMILIES: &[(&str, usize)] = &[
     ("depth", 16), ("width", 9), ("attrs", 11), ("dupattrs", 10), ("groups", 1), ("members", 15),
-    ("unclosed", 5), ("ends", 5), ("bigvalues", 1), ("collset", 21),
+    ("unclosed", 5), ("ends", 5), ("bigvalues", 1), ("collset", 21), ("deepsets", 25), ("badnames", 1), ("badtext", 1),
 ];
